@@ -52,7 +52,13 @@ def goFacts : GoFacts :=
     callBinGoArgLoop := ["in[i] = copyDeferArg(getBinValue(getMapType, v, f))"],
     callBinGoArgKinds := [],
     srcArgLoopHash := "13eb101a47871afb",
-    srcArgKinds := ["reflect.Interface"] }
+    srcArgKinds := ["reflect.Interface"],
+    wrapperCellsFresh := true,
+    wrapperCellInits := ["d[i] = reflect.New(t).Elem()"],
+    wrapperCellSets := ["d[i].Set(arg)", "d[i].Set(reflect.ValueOf(valueInterface{value: arg.Elem()}))", "d[numRet].Set(bindRecv())", "d[numRet].Set(recv)"],
+    getFuncCellsFresh := true,
+    getFuncCellInits := ["d[i] = reflect.New(t).Elem()"],
+    getFuncCellSets := ["d[i].Set(arg)", "d[i].Set(reflect.ValueOf(valueInterface{value: arg.Elem()}))"] }
 
 /-- fingerprints of the functions transcribed by Model/Conc.lean (`_select`, `clauseChanDir`) and
     Model/ConcFrames.lean (`getFunc`, `frame.clone`, `newFrame`, `copyDeferArg`: reflect.New(t).Elem() + Set; `newCallFrame`: a frame whose anc is the given frame (the clone / the wrapper's frame), with the interpreter's current
